@@ -26,7 +26,7 @@ use crate::{
     PeerId,
 };
 
-use ed25519_dalek::{self as ed25519, Signer as _, Verifier as _};
+use ed25519_dalek::{self as ed25519, Signer as _};
 use std::fmt;
 use zeroize::Zeroize;
 
